@@ -13,12 +13,14 @@ NODE_U = {
     "strs": ["a", "b", "c", "d", "e", "1", "2", "zz"],
     "mixed": [0, 1, 2, 3, "a", "b", "1", 4.0],
     "wide": list(range(14)),  # more than ten nodes: two-digit positions
+    "large": list(range(40)),  # size thresholds
 }
 EDGE_U = {
     "ints": [0, 1, 2, 3, 5, 8, -1, -2],
     "strs": ["e0", "e1", "x", "0", "1", "7"],
     "mixed": [0, 1, "x", "1", 2.0, (0, 1), 5, 7],
     "wide": [0, 1, 2, 3, 5, 8, 11, 13, 21],
+    "large": list(range(0, 120, 3)),
 }
 try:
     import numpy as _np
@@ -79,6 +81,8 @@ class Gen:
         return self.r.choice(u)
 
     def members(self, model, lo=1, hi=4, p_existing=0.6):
+        if self.profile == "large" and hi == 4 and model.kind != "SC":
+            hi = 9
         k = self.r.randint(lo, hi)
         out = []
         for _ in range(k):
